@@ -15,7 +15,7 @@ pub fn spec(tier: Tier) -> RunSpec {
         "generated document trees (G-TREE: 1-5 ancestor levels, nested directories, symlinks inside and to owner-designated outside targets; uniquely marked secrets planted at every ancestor level \
 as plain file, index.html and page-k.html, in sibling directories whose names extend the root's name, and next to an owner-linked outside directory) x targets from a grammar \
 (prefix in {'', '/', '//', '@h', 'h:80', 'http://h', 'http://h:80'} + segments from {'..', '.', '', tree directory paths, tree names, secret names, ancestor names, %2e%2e, %2E%2E, .%2e, %2e., ..%2f, ..., ..;, ..\\\\} \
-+ optional trailing slash + optional ?q / #f), biased so that half of the targets climb exactly to a level and end on a secret planted there, x optional Range header x both entry points. \
++ optional trailing slash + optional ?q / #f), biased so that half of the targets climb exactly to a level and end on a secret planted there, a share of the targets spell the absolute filesystem path of a secret behind zero or more empty / dot segments and every prefix ('/<abs>', '//<abs>', '/.//<abs>', 'http://h/<abs>'), separators between segments may be spelt %2F / %2f / %5C / backslash / %252F, x optional Range header x both entry points. \
 Oracle: (a) the response contains no 12-byte window of any secret's content; (b) origin-form targets whose running depth goes below zero are answered with status >= 400. \
  A quarter of the production-entry targets of every tree are sent to the real release binary (started with the tree's root as working directory) over loopback instead of Server::process on the mock transport (class production-entry-real-binary); the oracle is the same. Non-trivial = target contains '..' (raw or encoded) or is not origin-form; distinct by (tree, target, range, entry point).",
         &["secrets consist only of their unique marker text, so a 12-byte window of a secret occurring in a response is a disclosure (coincidence probability ~1e-14 per window pair)",
@@ -98,7 +98,10 @@ fn target_strategy(levels: usize, has_outside_links: bool) -> impl Strategy<Valu
         1 => prop::sample::select(vec!["...", "..\\", "%2e", "..%00", "%2e%2e%2f", "..%5c", "etc", "proc", "self", "cwd", "~", "%c0%ae%c0%ae", "....", "%252e%252e", "..%20", ".. ", "%2e%2e%5c", "..%255c", "..%c0%af", "%u002e%u002e", "..%09", "..;x=1", "..."]).prop_map(|s| Seg::Lit(s.to_string())),
     ];
     let random = proptest::collection::vec(seg, 1..=10);
-    let segs = if has_outside_links { prop_oneof![5 => climb, 2 => through_link, 3 => random].boxed() } else { prop_oneof![6 => climb, 4 => random].boxed() };
+    // shape C: the absolute path of a secret behind zero or more empty / dot segments ("/<abs>", "//<abs>", "/.//<abs>", "http://h/<abs>" ...):
+    // joining it to the served directory must not replace the base
+    let absolute = (proptest::collection::vec(prop_oneof![3 => Just(Seg::Empty), 1 => Just(Seg::Dot)], 0..3), any::<u16>()).prop_map(|(mut lead, k)| { lead.push(Seg::Lit(format!("\u{1}ABSSECRET{}", k))); lead });
+    let segs = if has_outside_links { prop_oneof![5 => climb, 2 => through_link, 3 => random, 2 => absolute].boxed() } else { prop_oneof![6 => climb, 4 => random, 2 => absolute].boxed() };
     let enc = prop_oneof![7 => Just(0u16), 2 => any::<u16>(), 1 => Just(u16::MAX)];
     (0u8..16, segs, proptest::bool::weighted(0.2), 0u8..6, range_strategy(), proptest::bool::weighted(0.3), enc, 0u8..6, proptest::bool::weighted(0.25))
         .prop_map(|(prefix, segs, trailing_slash, suffix, range, legacy, enc_sep, enc_kind, binary)| Target { prefix, segs, trailing_slash, suffix, range, legacy, enc_sep, enc_kind, binary: binary && !legacy })
@@ -167,6 +170,11 @@ pub fn render(tree: &Tree, t: &Target) -> String {
                         parts.push(tree.spec.root_name.clone());
                         if let Some(f) = tree.files.first() { for s in f.url.trim_start_matches('/').split('/') { parts.push(s.to_string()); } }
                     }
+                } else if let Some(rest) = l.strip_prefix("\u{1}ABSSECRET") {
+                    // the absolute filesystem path of a secret, component by component (after whatever prefix and leading segments the target has)
+                    let i: u16 = rest.parse().unwrap_or(0);
+                    let sct = &tree.secrets[pick_idx(i, tree.secrets.len())];
+                    for c in sct.abs.to_string_lossy().split('/').filter(|c| !c.is_empty()) { parts.push(c.to_string()); }
                 } else if let Some(rest) = l.strip_prefix("\u{1}OUTLINK") {
                     let i: u16 = rest.parse().unwrap_or(0);
                     if !tree.outside_dir_links.is_empty() {
@@ -244,6 +252,7 @@ pub fn eval(ctx: &Ctx, p: &Prepared, t: &Target) -> Verdict {
     if climbs { classes.push("climbs-above-root"); }
     let ends_on_secret = p.tree.secrets.iter().any(|s| { let last = s.name.rsplit('/').next().unwrap_or(""); target.split(|c| c == '?' || c == '#').next().unwrap_or("").trim_end_matches('/').ends_with(last.trim_end_matches(".html")) });
     if climbs && ends_on_secret { classes.push("climbs-and-names-a-secret"); }
+    if t.segs.iter().any(|s| matches!(s, Seg::Lit(l) if l.starts_with("\u{1}ABSSECRET"))) { classes.push("absolute-path-of-a-secret"); }
     if target.contains("linked-area") || p.tree.outside_dir_links.iter().any(|(u, _)| target.contains(u.as_str())) { classes.push("through-owner-link"); }
     let mut problems = vec![];
     if discloses(&p.windows, &o.out) {
@@ -267,7 +276,7 @@ pub fn eval(ctx: &Ctx, p: &Prepared, t: &Target) -> Verdict {
         let cls = classes.iter().rev().find(|c| !c.ends_with("-entry")).copied().unwrap_or("plain");
         ctx.sample(cls, || serde_json::json!({"request_target": target, "range": t.range, "entry": format!("{:?}", entry), "status": mhttp::parse(&o.out).map(|r| r.status as i64).unwrap_or(-1), "levels_above_root": p.tree.ancestor_names.len()}));
     }
-    ctx.judge(problems, has_dotdot || !origin_form, classes)
+    ctx.judge(problems, has_dotdot || !origin_form || target.starts_with("//") || t.segs.iter().any(|s| matches!(s, Seg::Lit(l) if l.starts_with("\u{1}ABSSECRET"))), classes)
 }
 
 pub fn run(ctx: &Ctx) {
